@@ -37,7 +37,11 @@ type State struct {
 // InitOracle: the (arbitrary but fixed) pre-state of open-world stores, shared by every fork of one chain
 // state. A key first read in a cache that is later discarded — or read independently in two forks of the
 // same state (self-composition, C18) — materialises to the same initial presence/value everywhere.
-type InitOracle struct{ m map[string][]*Entry }
+type InitOracle struct {
+	m      map[string][]*Entry // open-world stores: keys read so far
+	closed map[string][]*Entry // closed-world stores: the complete initial content
+	bank   []*Term             // initial bank/auth ledgers, once named
+}
 
 var (
 	balSort  = Sort{K: SUn, Name: "(Array Bytes (Array Str Int))"}
@@ -48,7 +52,7 @@ var (
 )
 
 func newState() *State {
-	return &State{Stores: map[string]*Store{}, Ghost: map[string]Value{}, Perm: map[string]*Term{}, Init: &InitOracle{m: map[string][]*Entry{}}}
+	return &State{Stores: map[string]*Store{}, Ghost: map[string]Value{}, Perm: map[string]*Term{}, Init: &InitOracle{m: map[string][]*Entry{}, closed: map[string][]*Entry{}}}
 }
 
 func (s *State) clone() *State {
@@ -149,7 +153,19 @@ func (e *Exec) storeOf(c *CtxV, coll *CollV) *Store {
 			st.Entries = nil
 		} else if n, ok := e.cfg.Stores[coll.Name]; ok {
 			st.Closed = true
-			e.initClosed(st, coll, n)
+			if init, seen := c.St.Init.closed[coll.Name]; seen {
+				// another fork of this chain state already fixed the initial content
+				for _, en := range init {
+					st.Entries = append(st.Entries, &Entry{Key: en.Key, KeyV: en.KeyV, Present: en.Present, Val: deepCopy(en.Val)})
+				}
+			} else {
+				e.initClosed(st, coll, n)
+				var init []*Entry
+				for _, en := range st.Entries {
+					init = append(init, &Entry{Key: en.Key, KeyV: en.KeyV, Present: en.Present, Val: deepCopy(en.Val)})
+				}
+				c.St.Init.closed[coll.Name] = init
+			}
 		} else if e.cfg.Opts["emptystate"] == 1 {
 			st.Closed = true
 		}
